@@ -531,6 +531,23 @@ static void prof_lineindep(vh_rng_t *r, const vh_args_t *a)
     li_observe(&F, &u, hn.n ? &hn : NULL, an.n ? &an : NULL, &oa);
     li_observe(&G, &u, hn.n ? &hn : NULL, an.n ? &an : NULL, &ob);
     violated = li_compare(li_target_name[target], clsname, &oa, &ob, &F, &G, skip);
+    /* Same files, same environment, same application options, no setter call in between: what
+     * the channel reads at creation and what it reads at an awaited ares_reinit() are the same
+     * directives, so a valid directive that is effective after one and not after the other has
+     * failed to take effect once. */
+    if (!violated && oa.rc == ARES_SUCCESS) {
+      const char *d2 = cfg_eff_diff(&oa.e_init, &oa.e_reinit, NULL, skip);
+      CNT("lineindep_init_vs_reinit_comparisons");
+      if (d2) {
+        char  key2[200];
+        char *w2 = cfg_witness(&F);
+        snprintf(key2, sizeof(key2), "cfg15:init-vs-reinit:%s:%s", li_target_name[target], d2);
+        vh_violation(key2, "%s = %.200s after creation, %.200s after ares_reinit of unchanged sources | F: %.900s",
+                     d2, cfg_eff_get(&oa.e_init, d2), cfg_eff_get(&oa.e_reinit, d2), w2);
+        free(w2);
+        violated = 1;
+      }
+    }
     /* the decoys at the default paths must not have been read */
     if (oa.rc == ARES_SUCCESS && resolv_file == CF_RESOLV_ALT) {
       const char *sv = cfg_eff_get(&oa.e_init, "i.server_addrs");
